@@ -80,6 +80,8 @@ fn snippet(op: &Value) -> String {
         "export" => format!("export {a}"),
         "unexport" => format!("export -n {a}"),
         "deffunc" if b == "2" => format!("{a}() {{ case ab in +(a|b)) echo F2;; esac; }}"),
+        // the body calls the alias name (expanded, or not, when the definition is READ)
+        "deffunc" if b == "3" => format!("{a}() {{ a1 F3; }}"),
         "deffunc" => format!("{a}() {{ echo F{b}; }}"),
         "unsetfunc" => format!("unset -f {a}"),
         "defalias" => format!("alias {a}='echo A{b}'"),
@@ -104,7 +106,7 @@ const PROBE: &str = r#"for __pn in v1 BASH_MYVAR TMPDIR_ORIG; do
     if __e=$(printenv "$__pn"); then printf 'env %s ' "$__pn"; printf '%s' "$__e" | od -An -v -tx1 | tr -d ' \n'; echo; else echo "env $__pn -"; fi
   else echo "var $__pn unset 0 "; echo "env $__pn -"; fi
 done
-if declare -F f1 >/dev/null; then __fb=$(declare -f f1); case "$__fb" in *F2*) echo "func f1 F2";; *F1*) echo "func f1 F1";; *) echo "func f1 F?";; esac; else echo "func f1 F0"; fi
+if declare -F f1 >/dev/null; then __fb=$(declare -f f1); case "$__fb" in *F2*) echo "func f1 F2";; *F1*) echo "func f1 F1";; *"a1 F3"*) echo "func f1 F3";; *"echo A1 F3"*) echo "func f1 F3e1";; *"echo A2 F3"*) echo "func f1 F3e2";; *) echo "func f1 F?";; esac; else echo "func f1 F0"; fi
 if __a=$(alias a1 2>/dev/null); then echo "alias a1 ${__a: -2:1}"; else echo "alias a1 0"; fi
 echo "opts $(set +o | grep -E ' (noglob|nounset|pipefail|noclobber)$' | grep -- ' -o ' | sed 's/.* //' | sort | tr '\n' ' ')"
 echo "shopts $(shopt -p extglob nullglob dotglob | grep -- ' -s ' | sed 's/.* //' | sort | tr '\n' ' ')"
@@ -251,7 +253,8 @@ fn one(id: u64, v: &Value, bash: &Path) -> Value {
     }
     while obs.len() < n { obs.push(json!({"missing": exec_note.clone()})); }
     // ---- cross-check: ONE bash session
-    let mut script = format!("export BASE={}\ncd \"$BASE\"\n", ansi_c_quote(&single_dir.to_string_lossy()));
+    // (typed into ONE session: aliases are expanded as in an interactive shell -- scrut's runner sets the same option)
+    let mut script = format!("shopt -s expand_aliases\nexport BASE={}\ncd \"$BASE\"\n", ansi_c_quote(&single_dir.to_string_lossy()));
     for (k, t) in hist.iter().enumerate() {
         // in the one session a configured variable is an exported variable set before the expression
         let ops: Vec<String> = t["ops"].as_array().unwrap().iter().map(|o| if o["op"] == json!("cfgenv") {
